@@ -1,5 +1,6 @@
 import DinoProofs.Lemmas.Shard
 import DinoProofs.Lemmas.ShardPad
+import DinoProofs.Lemmas.ShardBasis
 import DinoProofs.Properties.C15
 
 /-!
@@ -301,6 +302,208 @@ example : verticalPad 0 (some 2) [7, 8, 9] = some ([7, 8, 9, 0], some 1)
   decide
 
 end vertical
+
+/-! ## T7.4 — zero-padded bases: the padded transforms restricted to the resolved block are the unpadded
+transforms, and everything they write on the padding is exactly zero -/
+
+section basis
+open Dino.SH Dino.Lin
+variable {K : Type} [CommRing K]
+
+/-- shape of an (unpadded) `FastSphericalHarmonics` basis: `f : N × 2H`, `p : H × J × L`, `w : J` -/
+structure FastShaped (b : Basis K) (N H J L : Nat) : Prop where
+  fl : b.f.length = N
+  fr : ∀ fi ∈ b.f, fi.length = 2 * H
+  pl : b.p.length = H
+  pj : ∀ t ∈ b.p, t.length = J
+  pll : ∀ t ∈ b.p, ∀ r ∈ t, r.length = L
+  wl : b.w.length = J
+
+theorem half_double (k : Nat) : 2 * k / 2 = k := by omega
+
+/-- **T7.4** synthesis (`inverse_transform`, unstacked Fourier step) with the zero-padded basis on a
+ zero-padded modal array is the zero-padded unpadded synthesis: the resolved block is unchanged, the
+ nodal padding is exactly zero.  `npx, npy` nodal paddings, `2·hx, mpy` modal paddings. -/
+theorem fastSynth_padded (b : Basis K) (N H J L npx npy hx mpy : Nat) (hb : FastShaped b N H J L)
+    (x : List (List K)) (hxl : x.length = 2 * H) (hxL : ∀ r ∈ x, r.length = L) :
+    fastSynth (padBasis b (2 * H) J L npx npy (2 * hx) mpy) (J + npy) (padMat x L (2 * hx) mpy)
+      = padMat (fastSynth b J x) J npx npy := by
+  have he : (evens x).length = H := by rw [evens_length, hxl]; omega
+  have ho : (odds x).length = H := by rw [odds_length, hxl]; omega
+  unfold fastSynth padBasis invFourier
+  simp only [half_double]
+  rw [evens_padMat x L hx mpy (by omega), odds_padMat x L hx mpy (by omega),
+    invLegendre_pad b.p (evens x) J L hx npy mpy (by rw [hb.pl, he]) hb.pll
+      (fun r hr => hxL r (mem_evens x r hr)),
+    invLegendre_pad b.p (odds x) J L hx npy mpy (by rw [hb.pl, ho]) hb.pll
+      (fun r hr => hxL r (mem_odds x r hr)),
+    stackM_padMat _ _ J hx npy (by rw [invLegendre_length', invLegendre_length', he, ho]),
+    matMul_pad b.f _ (2 * H) J npx (2 * hx) npy hb.fr
+      (by rw [stackM_length _ _ (by rw [invLegendre_length', invLegendre_length', he, ho]),
+            invLegendre_length', hb.pl, he]; omega)
+      (fun r hr => by
+        rcases mem_stackM _ _ r hr with h | h
+        · exact invLegendre_rows' _ _ J hb.pj r h
+        · exact invLegendre_rows' _ _ J hb.pj r h)]
+
+/-- **T7.4** analysis (`transform`, unstacked Fourier step) -/
+theorem fastAnalysis_padded (b : Basis K) (N H J L npx npy hx mpy : Nat) (hb : FastShaped b N H J L)
+    (z : List (List K)) (hzl : z.length = N) (hzJ : ∀ r ∈ z, r.length = J) :
+    fastAnalysis (padBasis b (2 * H) J L npx npy (2 * hx) mpy) (2 * H + 2 * hx) (J + npy) (L + mpy)
+        (padMat z J npx npy)
+      = padMat (fastAnalysis b (2 * H) J L z) L (2 * hx) mpy := by
+  have hwz := weight_rows' b.w z J hb.wl hzJ
+  have hfw := fwdFourier_rows b.f (weight b.w z) (2 * H) J hwz
+  have hfl : (fwdFourier b.f (weight b.w z) (2 * H) J).length = 2 * H := by simp [fwdFourier, transposeM]
+  have he : (evens (fwdFourier b.f (weight b.w z) (2 * H) J)).length = H := by rw [evens_length, hfl]; omega
+  have ho : (odds (fwdFourier b.f (weight b.w z) (2 * H) J)).length = H := by rw [odds_length, hfl]; omega
+  unfold fastAnalysis padBasis
+  simp only [half_double]
+  rw [weight_pad b.w z J npx npy hb.wl hzJ,
+    fwdFourier_pad b.f _ (2 * H) J npx (2 * hx) npy hb.fr (by simp [weight, hb.fl, hzl]) hwz,
+    evens_padMat _ J hx npy (by omega), odds_padMat _ J hx npy (by omega),
+    fwdLegendre_pad b.p _ J L hx npy mpy (by rw [hb.pl, he]) hb.pll hb.pj
+      (fun r hr => hfw r (mem_evens _ r hr)),
+    fwdLegendre_pad b.p _ J L hx npy mpy (by rw [hb.pl, ho]) hb.pll hb.pj
+      (fun r hr => hfw r (mem_odds _ r hr)),
+    stackM_padMat _ _ L hx mpy (by rw [fwdLegendre_length, fwdLegendre_length, he, ho])]
+
+/-- **T7.4** synthesis with the stacked Fourier step (`einsum('ism,...smj->...ij')`) -/
+theorem fastSynthStacked_padded (b : Basis K) (N H J L npx npy hx mpy : Nat) (hb : FastShaped b N H J L)
+    (x : List (List K)) (hxl : x.length = 2 * H) (hxL : ∀ r ∈ x, r.length = L) :
+    fastSynthStacked (padBasis b (2 * H) J L npx npy (2 * hx) mpy) (J + npy) (padMat x L (2 * hx) mpy)
+      = padMat (fastSynthStacked b J x) J npx npy := by
+  have he : (evens x).length = H := by rw [evens_length, hxl]; omega
+  have ho : (odds x).length = H := by rw [odds_length, hxl]; omega
+  have hfe : ∀ fi ∈ b.f.map evens, fi.length = H := by
+    intro fi hfi; obtain ⟨f0, hf0, rfl⟩ := List.mem_map.1 hfi
+    rw [evens_length, hb.fr f0 hf0]; omega
+  have hfo : ∀ fi ∈ b.f.map odds, fi.length = H := by
+    intro fi hfi; obtain ⟨f0, hf0, rfl⟩ := List.mem_map.1 hfi
+    rw [odds_length, hb.fr f0 hf0]; omega
+  have hle : (invLegendre b.p (evens x)).length = H := by rw [invLegendre_length', hb.pl, he]; omega
+  have hlo : (invLegendre b.p (odds x)).length = H := by rw [invLegendre_length', hb.pl, ho]; omega
+  unfold fastSynthStacked padBasis
+  simp only [half_double]
+  rw [evens_padMat x L hx mpy (by omega), odds_padMat x L hx mpy (by omega),
+    invLegendre_pad b.p (evens x) J L hx npy mpy (by rw [hb.pl, he]) hb.pll
+      (fun r hr => hxL r (mem_evens x r hr)),
+    invLegendre_pad b.p (odds x) J L hx npy mpy (by rw [hb.pl, ho]) hb.pll
+      (fun r hr => hxL r (mem_odds x r hr)),
+    map_evens_padMat b.f H npx hx hb.fr, map_odds_padMat b.f H npx hx hb.fr,
+    matMul_pad _ _ H J npx hx npy hfe hle (invLegendre_rows' _ _ J hb.pj),
+    matMul_pad _ _ H J npx hx npy hfo hlo (invLegendre_rows' _ _ J hb.pj),
+    zipWith_vadd_padMat _ _ J npx npy (by simp [matMul])
+      (fun r hr => by
+        simp only [matMul, List.mem_map] at hr
+        obtain ⟨c, _, rfl⟩ := hr
+        exact vecMat_length _ _ _ (invLegendre_rows' _ _ J hb.pj))
+      (fun r hr => by
+        simp only [matMul, List.mem_map] at hr
+        obtain ⟨c, _, rfl⟩ := hr
+        exact vecMat_length _ _ _ (invLegendre_rows' _ _ J hb.pj))]
+
+/-- **T7.4** analysis with the stacked Fourier step (`einsum('ism,...ij->...smj')`) -/
+theorem fastAnalysisStacked_padded (b : Basis K) (N H J L npx npy hx mpy : Nat)
+    (hb : FastShaped b N H J L) (z : List (List K)) (hzl : z.length = N) (hzJ : ∀ r ∈ z, r.length = J) :
+    fastAnalysisStacked (padBasis b (2 * H) J L npx npy (2 * hx) mpy) (2 * H + 2 * hx) (J + npy) (L + mpy)
+        (padMat z J npx npy)
+      = padMat (fastAnalysisStacked b (2 * H) J L z) L (2 * hx) mpy := by
+  have hwz := weight_rows' b.w z J hb.wl hzJ
+  have hfe : ∀ fi ∈ b.f.map evens, fi.length = H := by
+    intro fi hfi; obtain ⟨f0, hf0, rfl⟩ := List.mem_map.1 hfi
+    rw [evens_length, hb.fr f0 hf0]; omega
+  have hfo : ∀ fi ∈ b.f.map odds, fi.length = H := by
+    intro fi hfi; obtain ⟨f0, hf0, rfl⟩ := List.mem_map.1 hfi
+    rw [odds_length, hb.fr f0 hf0]; omega
+  unfold fastAnalysisStacked padBasis
+  simp only [half_double, show (2 * H + 2 * hx) / 2 = H + hx by omega]
+  rw [weight_pad b.w z J npx npy hb.wl hzJ,
+    map_evens_padMat b.f H npx hx hb.fr, map_odds_padMat b.f H npx hx hb.fr,
+    fwdFourier_pad _ _ H J npx hx npy hfe (by simp [weight, hb.fl, hzl]) hwz,
+    fwdFourier_pad _ _ H J npx hx npy hfo (by simp [weight, hb.fl, hzl]) hwz,
+    fwdLegendre_pad b.p _ J L hx npy mpy (by simp [fwdFourier, transposeM, hb.pl]) hb.pll hb.pj
+      (fwdFourier_rows _ _ H J hwz),
+    fwdLegendre_pad b.p _ J L hx npy mpy (by simp [fwdFourier, transposeM, hb.pl]) hb.pll hb.pj
+      (fwdFourier_rows _ _ H J hwz),
+    stackM_padMat _ _ L hx mpy (by simp [fwdLegendre_length, fwdFourier, transposeM])]
+
+/-- the resolved block of a padded array is the unpadded array, the rest is zero -/
+theorem cropMat_padMat (a : List (List K)) (c pr pc : Nat) (h : ∀ r ∈ a, r.length = c) :
+    cropMat (padMat a c pr pc) a.length c = a := by
+  unfold cropMat padMat
+  rw [List.take_append_of_le_length (by simp), List.take_of_length_le (by simp), List.map_map]
+  conv_rhs => rw [← List.map_id a]
+  apply List.map_congr_left
+  intro r hr
+  simp only [Function.comp, id]
+  rw [List.take_append_of_le_length (by rw [h r hr]), List.take_of_length_le (by rw [h r hr])]
+
+/-- non-vacuity: a 2-node, one-wavenumber basis padded by one longitude node, one latitude node, two
+ modal rows and one total wavenumber -/
+def bEx : Basis ℚ := { f := [[1, 2], [3, 4]], p := [[[5, 6]]], w := [7] }
+
+theorem bEx_shaped : FastShaped bEx 2 1 1 2 :=
+  ⟨rfl, by decide, rfl, by decide, by decide, rfl⟩
+
+example : fastSynth (padBasis bEx 2 1 2 1 1 2 1) 2 (padMat [[1, 2], [3, 4]] 2 2 1)
+    = padMat (fastSynth bEx 1 [[1, 2], [3, 4]]) 1 1 1 :=
+  fastSynth_padded bEx 2 1 1 2 1 1 1 1 bEx_shaped _ rfl (by decide)
+
+example : fastSynth bEx 1 [[1, 2], [3, 4]] = [[95], [207]]
+    ∧ padMat (fastSynth bEx 1 [[1, 2], [3, 4]]) 1 1 1 = [[95, 0], [207, 0], [0, 0]] := by
+  constructor <;> decide +kernel
+
+example : fastAnalysis (padBasis bEx 2 1 2 1 1 2 1) 4 2 3 (padMat [[1], [2]] 1 1 1)
+    = padMat (fastAnalysis bEx 2 1 2 [[1], [2]]) 2 2 1 :=
+  fastAnalysis_padded bEx 2 1 1 2 1 1 1 1 bEx_shaped _ rfl (by decide)
+
+example : fastAnalysis bEx 2 1 2 [[1], [2]] = [[245, 294], [350, 420]] := by decide +kernel
+
+end basis
+
+/-! ## masks aware of the padding: `clip_wavenumbers`, `inverse_laplacian` -/
+
+section masks
+variable {K : Type} [Field K]
+
+/-- `Grid.clip_wavenumbers` on a padded layout (`num_zeros = n + modal_padding[-1]`): the mask is the
+ unpadded mask followed by zeros -/
+theorem clipMask_padded (L n pad : Nat) :
+    (clipMask (L + pad) n pad : List K) = clipMask L n 0 ++ List.replicate pad 0 := by
+  unfold clipMask
+  rw [List.range_add, List.map_append, List.map_map]
+  congr 1
+  · apply List.map_congr_left
+    intro j _
+    have : (j + (n + pad) < L + pad) ↔ (j + (n + 0) < L) := by omega
+    simp only [this]
+  · rw [List.eq_replicate_iff]
+    refine ⟨by simp, ?_⟩
+    intro b hb
+    obtain ⟨j, _, rfl⟩ := List.mem_map.1 hb
+    simp only [Function.comp]
+    rw [if_neg (by omega)]
+
+/-- `Grid.inverse_laplacian` on a padded layout: entries `total_wavenumbers:` are set to zero, so
+ the `1 / 0` of the zero-padded eigenvalues is never used -/
+theorem invEigen_padded (eigs : List K) (pad : Nat) (junk : List K) (hj : junk.length = pad) :
+    invEigen (eigs ++ junk) eigs.length = invEigen eigs eigs.length ++ List.replicate pad 0 := by
+  unfold invEigen
+  rw [List.zipIdx_append, List.map_append]
+  congr 1
+  rw [List.eq_replicate_iff]
+  refine ⟨by simp [hj], ?_⟩
+  intro b hb
+  obtain ⟨ej, hej, rfl⟩ := List.mem_map.1 hb
+  have := List.le_snd_of_mem_zipIdx hej
+  rw [if_pos (Or.inr (by simpa using this))]
+
+example : (clipMask 8 1 2 : List ℚ) = [1, 1, 1, 1, 1, 0, 0, 0]
+    ∧ invEigen ([0, -2, -6, 0, 0] : List ℚ) 3 = [0, -1 / 2, -1 / 6, 0, 0] := by
+  constructor <;> decide +kernel
+
+end masks
 
 /-! ## T7.8 — step filters on padded layouts (statement shared with `DinoProofs/Properties/C15.lean`) -/
 
